@@ -37,15 +37,15 @@ Proof.
   - apply (amend_chain orig s pre) in Hu. clear Hr. revert Hu. generalize (amend s pre). clear s.
     intros s Hu. unfold cmd_step.
     split; [|exact I]. cbn [u_buf u_undo].
-    set (undo1 := if top_merging (u_undo s) && negb ci then stop_merge (u_undo s) else u_undo s).
+    set (undo1 := if top_merging (u_undo s) && negb (continues ci) then stop_merge (u_undo s) else u_undo s).
     assert (H1 : chain_undo (u_buf s) undo1 orig).
-    { unfold undo1. destruct (top_merging (u_undo s) && negb ci); [now apply chain_stop|assumption]. }
+    { unfold undo1. destruct (top_merging (u_undo s) && negb (continues ci)); [now apply chain_stop|assumption]. }
     assert (H2 : chain_undo after (if text_eqb (u_buf s) after then undo1 else handle_edit undo1 (u_buf s) after) orig).
     { destruct (text_eqb_spec (u_buf s) after) as [<-|Hne]; [assumption|].
       unfold handle_edit. destruct undo1 as [|e l']; cbn [top_merging].
       - cbn. auto.
       - destruct (e_merging e); cbn [chain_undo e_new e_old] in *; tauto. }
-    destruct ci; [now apply chain_start|assumption].
+    match goal with |- chain_undo _ (if ?c then _ else _) _ => destruct c end; [now apply chain_start|assumption].
   - set (undo1 := if top_merging (u_undo s) then stop_merge (u_undo s) else u_undo s).
     assert (H1 : chain_undo (u_buf s) undo1 orig).
     { unfold undo1. destruct (top_merging (u_undo s)); [now apply chain_stop|assumption]. }
@@ -70,12 +70,12 @@ Proof.
   apply IH. now apply inv_step.
 Qed.
 
-(** [u] after a change that was not merged into an insert session gives back
-    exactly the text before that change *)
+(** [u] after a change that stands alone (anything but a typed character or c / o / O) gives back exactly the text
+    before that change, whatever came before it - an open insert session, another [r] - *)
 Theorem undo_after_change s t :
-  t <> u_buf s -> u_buf (ustep (ustep s (OCmd None t false)) OUndo) = u_buf s.
+  t <> u_buf s -> u_buf (ustep (ustep s (OCmd None t KPlain)) OUndo) = u_buf s.
 Proof.
-  intros Hne. cbn [ustep amend cmd_step u_undo u_buf negb andb].
+  intros Hne. cbn [ustep amend cmd_step u_undo u_buf negb andb continues sessiony].
   destruct (text_eqb_spec (u_buf s) t) as [E|_]; [congruence|].
   rewrite andb_true_r.
   set (undo1 := if top_merging (u_undo s) then stop_merge (u_undo s) else u_undo s).
@@ -85,12 +85,40 @@ Proof.
   unfold handle_edit. rewrite Hm. reflexivity.
 Qed.
 
+(** a command that stands alone leaves no open record behind: the next command cannot be folded into it *)
+Lemma plain_closes s t : top_merging (u_undo (ustep s (OCmd None t KPlain))) = false.
+Proof.
+  cbn [ustep amend cmd_step u_undo u_buf negb andb continues sessiony]. rewrite andb_true_r.
+  set (undo1 := if top_merging (u_undo s) then stop_merge (u_undo s) else u_undo s).
+  assert (Hm : top_merging undo1 = false).
+  { unfold undo1. destruct (u_undo s) as [|e l]; [reflexivity|]. cbn [top_merging].
+    destruct (e_merging e) eqn:E; [reflexivity|exact E]. }
+  destruct (text_eqb (u_buf s) t); [exact Hm|].
+  unfold handle_edit. rewrite Hm. reflexivity.
+Qed.
+
+(** c / o / O that change nothing do not reopen the record of an earlier change *)
+Lemma opens_nothing_keeps_closed s :
+  top_merging (u_undo (ustep s (OCmd None (u_buf s) KOpens))) = false.
+Proof.
+  cbn [ustep amend cmd_step u_undo u_buf negb andb continues sessiony]. rewrite andb_true_r.
+  destruct (text_eqb_spec (u_buf s) (u_buf s)) as [_|N]; [|congruence].
+  set (undo1 := if top_merging (u_undo s) then stop_merge (u_undo s) else u_undo s).
+  assert (Hl : length undo1 = length (u_undo s)).
+  { unfold undo1. destruct (top_merging (u_undo s)); [|reflexivity]. destruct (u_undo s); reflexivity. }
+  assert (Hm : top_merging undo1 = false).
+  { unfold undo1. destruct (u_undo s) as [|e l]; [reflexivity|]. cbn [top_merging].
+    destruct (e_merging e) eqn:E; [reflexivity|exact E]. }
+  rewrite Hl, Nat.ltb_irrefl. cbn [orb andb]. exact Hm.
+Qed.
+
 (** a whole insert session (consecutive character inserts) is undone at once *)
 Lemma session_step s e l t :
   u_undo s = e :: l -> e_merging e = true ->
-  exists e', u_undo (ustep s (OCmd None t true)) = e' :: l /\ e_old e' = e_old e /\ e_merging e' = true.
+  exists e', u_undo (ustep s (OCmd None t KContinues)) = e' :: l /\ e_old e' = e_old e /\ e_merging e' = true.
 Proof.
-  intros Hu Hm. cbn [ustep amend cmd_step u_undo]. rewrite Hu. cbn [top_merging]. rewrite Hm. cbn [negb andb].
+  intros Hu Hm. cbn [ustep amend cmd_step u_undo continues sessiony]. rewrite Hu. cbn [top_merging]. rewrite Hm. cbn [negb andb].
+  rewrite orb_true_r.
   destruct (text_eqb (u_buf s) t).
   - cbn [start_merge]. eexists. repeat split; reflexivity.
   - unfold handle_edit. cbn [top_merging]. rewrite Hm. cbn [start_merge e_old e_new].
@@ -99,7 +127,7 @@ Qed.
 
 Lemma session_top ts : forall s e l,
   u_undo s = e :: l -> e_merging e = true ->
-  exists e', u_undo (fold_left (fun s t => ustep s (OCmd None t true)) ts s) = e' :: l
+  exists e', u_undo (fold_left (fun s t => ustep s (OCmd None t KContinues)) ts s) = e' :: l
              /\ e_old e' = e_old e /\ e_merging e' = true.
 Proof.
   induction ts as [|t ts IH]; intros s e l Hu Hm; cbn [fold_left].
@@ -109,19 +137,32 @@ Proof.
     exists e2. repeat split; [assumption|congruence|assumption].
 Qed.
 
-Theorem undo_insert_session s t ts :
-  top_merging (u_undo s) = false -> t <> u_buf s ->
-  u_buf (ustep (fold_left (fun s t => ustep s (OCmd None t true)) ts (ustep s (OCmd None t true))) OUndo)
+(** the command that starts the session - the first typed character, or c / o / O - makes the record the rest joins *)
+Lemma session_first s t k :
+  sessiony k = true -> t <> u_buf s -> (continues k = true -> top_merging (u_undo s) = false) ->
+  exists l, u_undo (ustep s (OCmd None t k)) = mkEdit (u_buf s) t true :: l.
+Proof.
+  intros Hk Hne Hc. cbn [ustep amend cmd_step u_undo u_buf]. rewrite Hk.
+  destruct (text_eqb_spec (u_buf s) t) as [E|_]; [congruence|].
+  assert (Hlt : forall n, Nat.ltb n (S n) = true) by (intros n; apply Nat.ltb_lt; lia).
+  destruct (top_merging (u_undo s)) eqn:Hm.
+  - destruct (u_undo s) as [|e l] eqn:Hu; [discriminate|]. cbn [top_merging] in Hm.
+    destruct k; [discriminate| |specialize (Hc eq_refl); discriminate]; cbn [continues negb andb orb].
+    unfold handle_edit. cbn [stop_merge top_merging e_merging length].
+    rewrite Hlt. cbn [andb orb start_merge e_old e_new]. eexists. reflexivity.
+  - cbn [andb]. unfold handle_edit. rewrite Hm. cbn [length]. rewrite Hlt.
+    cbn [andb orb start_merge e_old e_new]. eexists. reflexivity.
+Qed.
+
+Theorem undo_insert_session s t k ts :
+  sessiony k = true -> (continues k = true -> top_merging (u_undo s) = false) -> t <> u_buf s ->
+  u_buf (ustep (fold_left (fun s t => ustep s (OCmd None t KContinues)) ts (ustep s (OCmd None t k))) OUndo)
   = u_buf s.
 Proof.
-  intros Hm Hne.
-  assert (H1 : exists l, u_undo (ustep s (OCmd None t true)) = mkEdit (u_buf s) t true :: l).
-  { cbn [ustep amend cmd_step u_undo]. rewrite Hm. cbn [andb].
-    destruct (text_eqb_spec (u_buf s) t) as [E|_]; [congruence|].
-    unfold handle_edit. rewrite Hm. cbn [start_merge e_old e_new]. eexists. reflexivity. }
-  destruct H1 as [l H1].
+  intros Hk Hc Hne.
+  destruct (session_first s t k Hk Hne Hc) as [l H1].
   destruct (session_top ts _ _ _ H1 eq_refl) as (e' & Hu & Ho & Hmm).
-  set (s' := fold_left (fun s t => ustep s (OCmd None t true)) ts (ustep s (OCmd None t true))) in *.
+  set (s' := fold_left (fun s t => ustep s (OCmd None t KContinues)) ts (ustep s (OCmd None t k))) in *.
   unfold ustep at 1. rewrite Hu. cbn [top_merging]. rewrite Hmm.
   cbn [stop_merge u_buf e_old]. exact Ho.
 Qed.
@@ -130,19 +171,15 @@ Qed.
     when the session is left, are one change *)
 Theorem undo_block_insert s t p :
   top_merging (u_undo s) = false -> t <> u_buf s ->
-  u_buf (ustep (ustep (ustep s (OCmd None t true)) (OCmd (Some p) p false)) OUndo) = u_buf s.
+  u_buf (ustep (ustep (ustep s (OCmd None t KContinues)) (OCmd (Some p) p KPlain)) OUndo) = u_buf s.
 Proof.
   intros Hm Hne.
-  assert (H1 : exists l, u_undo (ustep s (OCmd None t true)) = mkEdit (u_buf s) t true :: l).
-  { cbn [ustep amend cmd_step u_undo]. rewrite Hm. cbn [andb].
-    destruct (text_eqb_spec (u_buf s) t) as [E|_]; [congruence|].
-    unfold handle_edit. rewrite Hm. cbn [start_merge e_old e_new]. eexists. reflexivity. }
-  destruct H1 as [l H1].
-  set (s1 := ustep s (OCmd None t true)) in *.
+  destruct (session_first s t KContinues eq_refl Hne (fun _ => Hm)) as [l H1].
+  set (s1 := ustep s (OCmd None t KContinues)) in *.
   assert (H2 : amend s1 (Some p) = mkU p (mkEdit (u_buf s) p true :: l) (u_redo s1)).
   { unfold amend. rewrite H1. reflexivity. }
   cbn [ustep]. rewrite H2.
-  unfold cmd_step. cbn [u_undo u_buf top_merging e_merging negb andb stop_merge e_old e_new].
+  unfold cmd_step. cbn [u_undo u_buf top_merging e_merging negb andb stop_merge e_old e_new continues sessiony].
   destruct (text_eqb_spec p p) as [_|N]; [|congruence].
   cbn [top_merging e_merging stop_merge u_buf e_old]. reflexivity.
 Qed.
@@ -225,9 +262,9 @@ Proof.
   intros (A & B & C). unfold cmd_step.
   assert (Hi : incl H (after :: H)) by (intros x Hx; now right).
   split; [now left|]. split; [|constructor]. cbn [u_undo].
-  set (undo1 := if top_merging (u_undo s) && negb ci then stop_merge (u_undo s) else u_undo s).
+  set (undo1 := if top_merging (u_undo s) && negb (continues ci) then stop_merge (u_undo s) else u_undo s).
   assert (F1 : Forall (eok (after :: H)) undo1).
-  { unfold undo1. destruct (top_merging (u_undo s) && negb ci); [apply forall_stop|];
+  { unfold undo1. destruct (top_merging (u_undo s) && negb (continues ci)); [apply forall_stop|];
       (eapply Forall_impl; [|exact B]; intros e; now apply eok_mono). }
   assert (F2 : Forall (eok (after :: H))
                  (if text_eqb (u_buf s) after then undo1 else handle_edit undo1 (u_buf s) after)).
@@ -239,7 +276,7 @@ Proof.
       + constructor; [split; cbn; [exact Eo|now left]|assumption].
       + constructor; [split; cbn; [right; exact A|now left]|].
         constructor; [split; assumption|assumption]. }
-  destruct ci; [now apply forall_start|assumption].
+  match goal with |- Forall _ (if ?c then _ else _) => destruct c end; [now apply forall_start|assumption].
 Qed.
 
 Lemma ok_step H s o :
